@@ -290,7 +290,8 @@ for _cid, _what in [("C03", "publish decision = attached AND W in want&given; a 
               parts=[Part("msg", SRV, "^TestVerif%sMsg$" % _cid, instr=True, gomaxprocs=16, deadline=(400, 3000))] +
                     ([Part("p2p", SRV, "^TestVerif%sP2P$" % _cid, instr=True, gomaxprocs=16, deadline=(300, 2400))] if _cid in ("C02", "C03", "C09") else []) +
                     ([Part("chan", SRV, "^TestVerif%sChan$" % _cid, instr=True, gomaxprocs=16, deadline=(300, 2400))] if _cid in ("C02", "C03", "C09") else []) +
-                    ([Part("races", SRV, "^TestVerifC03Races$", instr=True, shards=(8, 16), deadline=(300, 3000))] if _cid == "C03" else []) +
+                    ([Part("races", SRV, "^TestVerifC03Races$", instr=True, shards=(8, 16), deadline=(300, 3000)),
+                      Part("suspended", SRV, "^TestVerifC03Suspended$", instr=True, gomaxprocs=16, deadline=(300, 2400))] if _cid == "C03" else []) +
                     ([Part("ranges", TYPES, "^TestVerifC04Ranges$", shards=(16, 16))] if _cid == "C04" else [])))
 
 reg(Check("C11", "model_checking",
